@@ -298,6 +298,91 @@ def h_relative_to(ctx):
         ctx.check("derived-point-inherits-the-orientation", got.get("parentOrientation") is o.orientation, operands=case)
 
 
+def h_project_vector(ctx):
+    """`on region` as a modifying specifier: MeshRegion.projectVector returns the CLOSEST of the points hit along
+    onDirection and its negation (docs/reference/specifiers.rst), or None when there is none."""
+    import scenic.core.regions as R
+    from scenic.core.vectors import Vector
+
+    M.bind(ctx)
+    p = [ctx.real(f"point.{c}") for c in "xyz"]
+    d = [ctx.real(f"onDirection.{c}") for c in "xyz"]
+    ctx.assume(E.sym_or(d[0] != 0, d[1] != 0, d[2] != 0))
+    nh = ctx.choice("hits", [0, 1, 2])  # the ray query reports at most one hit per direction
+    ts = [ctx.real(f"hit{i}.t") for i in range(nh)]  # hit i = point + t_i * onDirection (t > 0 forwards, < 0 backwards)
+    for t in ts:
+        ctx.assume(t != 0)
+    if nh == 2:
+        ctx.assume(ts[0] * ts[1] < 0)  # one hit in each direction
+        ctx.assume(ts[0] * ts[0] != ts[1] * ts[1])  # not equidistant
+    hits = [M.PyVec([p[k] + t * d[k] for k in range(3)]) for t in ts]
+
+    class Arr(list):
+        def __sub__(self, q):
+            return Arr([M.PyVec([h[k] - q[k] for k in range(3)]) for h in self])
+
+    class NP:
+        newaxis = None
+
+        @staticmethod
+        def array(x):
+            return M.PyVec(list(x))
+
+        @staticmethod
+        def asarray(x):
+            return list(x)
+
+        class linalg:
+            @staticmethod
+            def norm(v, axis=None):
+                if axis == 1:
+                    return [M.real_hypot(ctx, *list(r)) for r in v]
+                flat = [c for r in v for c in (r if hasattr(r, "__len__") else [r])]
+                return M.real_hypot(ctx, *flat)  # Frobenius norm of the whole array: one number
+
+        @staticmethod
+        def argmin(x):
+            if not isinstance(x, list):
+                return 0
+            best = 0
+            for i in range(1, len(x)):
+                if x[i] < x[best]:
+                    best = i
+            return best
+
+    class Ray:
+        @staticmethod
+        def intersects_location(ray_origins=None, ray_directions=None, multiple_hits=True):
+            return Arr(hits), list(range(nh)), list(range(nh))
+
+    class Mesh:
+        ray = Ray()
+
+    reg = object.__new__(R.MeshSurfaceRegion)
+    reg.__dict__.update(mesh=Mesh(), _cached_mesh=Mesh(), containsPoint=lambda q: False)
+    saved = R.numpy
+    R.numpy = NP
+    try:
+        f = R.MeshRegion.projectVector
+        got = f.__wrapped__(reg, Vector(*p), Vector(*d)) if hasattr(f, "__wrapped__") else f(reg, Vector(*p), Vector(*d))
+    finally:
+        R.numpy = saved
+    if nh == 0:
+        ctx.check("no-hit-gives-None", got is None)
+        return
+    ctx.check("a-point-is-returned", got is not None)
+    if got is None:
+        return
+    # the returned point is the hit with the smallest |t|
+    dd = d[0] * d[0] + d[1] * d[1] + d[2] * d[2]
+    best = ts[0]
+    if nh == 2:
+        best = E.sym_ite(ts[0] * ts[0] < ts[1] * ts[1], ts[0], ts[1])
+    want = [p[k] + best * d[k] for k in range(3)]
+    ctx.check("projection-is-the-closest-point-hit-along-onDirection-or-its-negation",
+              E.sym_and(got.x == want[0], got.y == want[1], got.z == want[2]), hits=nh)
+
+
 def ground_beyond():
     """beyond X by O from Y on seeded concrete vectors: the offset is expressed in the frame centred at X and
     oriented along the line of sight from Y (its y axis points away from Y)."""
@@ -376,6 +461,7 @@ def ground_orientation_algebra():
 def obligations(tier, seed):
     import scenic.core.object_types as OT
     import scenic.syntax.veneer as V
+    import scenic.core.regions as R
     from scenic.core import geometry as G
     from scenic.core.vectors import Orientation, Vector
 
@@ -400,6 +486,8 @@ def obligations(tier, seed):
         Obligation("vector-algebra", h_vector_algebra, "Vector rotation / offsets / distance / products", {},
                    [Vector.rotatedBy, Vector.offsetRotated, Vector.offsetRadially, Vector.distanceTo, Vector.dot, Vector.cross], mm, opts=o),
         Obligation("normalizeAngle", h_normalize_angle, "normalizeAngle in [-pi,pi], congruent mod 2pi", {"angle": "|a| <= 5 pi"}, [G.normalizeAngle], [], opts=o),
+        Obligation("on-region-projection", h_project_vector, "MeshRegion.projectVector (modifying `on region`): closest hit along onDirection or its negation",
+                   {"point/direction": "any reals", "hits": "0, 1 or 2 (one per direction), arbitrary distances"}, [R.MeshRegion.projectVector], mm + ["trimesh ray query: symbolic hit list"], opts=o),
         Obligation("relative-to-operator", h_relative_to, "X relative to Y for all documented operand pairings (orientations as arbitrary 3x3 matrices)",
                    {"operands": "8 pairings (heading relative to heading goes through scipy and is covered by the ground orientation check)", "rotations": "arbitrary real 3x3 matrices (composition is matrix product)"},
                    [V.RelativeTo, OT.OrientedPoint.relativize], mm, opts=o),
